@@ -106,6 +106,9 @@ def evaluate(sid, wt, tier, props):
     rc, head = sh(["git", "-C", "/repo", "rev-parse", "HEAD"])
     if meta.get("status") != "superseded":
         git(wt, "checkout", "-q", "--detach", head.strip())
+    elif meta.get("base_commit"):
+        # only meaningful on the base it was written for
+        git(wt, "checkout", "-q", "--detach", meta["base_commit"])
     rc, out = git(wt, "apply", os.path.join(dst, "patch.diff"))
     if rc != 0:
         print("APPLY FAILED", out)
